@@ -14,6 +14,7 @@
 //!   VR <bo> <offset> <sig> <hex>              validate_raw::validate_marshalled for every complete type of <sig> in turn
 //!   UP <bo> <offset> <nfds> <sig> <hex>       unmarshal_with_sig (dynamic decoder) for every complete type of <sig>
 //!   BV|BA|BB ...                              glue on a body built with from_parts: validate(), unmarshall_all(), unmarshal_body (see below)
+//!   XM|XR|XD ...                              arrays of up to 64 MiB + a little, made here from a short descriptor (see giant())
 //!   CAT                                        print the catalogue
 use rbverif::wirelib::Args;
 use rbverif::{hex, unhex};
@@ -231,6 +232,7 @@ fn eval(line: &str) -> String {
             rbverif::wirelib::set_fd_table(&[]);
             res
         }
+        "XM" | "XR" | "XD" => giant(op, &mut a),
         "VR" | "UP" => {
             let byteorder = rbverif::wirelib::bo(&mut a);
             let mut offset = a.num() as usize;
@@ -277,6 +279,189 @@ fn eval(line: &str) -> String {
         }
         _ => "?".to_string(),
     }
+}
+
+// ---------------------------------------------------------------- values that do not fit on a line
+/// One array at offset 0 of a body, made from a descriptor:
+///   ay <n>                      n bytes, byte i = i mod 251
+///   at <n>                      n u64, element i = i
+///   as <count> <len> <lastlen>  count strings of len bytes (the last one: lastlen), string j = the letter a + j mod 26 repeated
+enum Shape {
+    Ay(usize),
+    At(usize),
+    As(usize, usize, usize),
+}
+
+fn crc32(data: &[u8]) -> u32 {
+    let mut table = [0u32; 256];
+    for i in 0..256u32 {
+        let mut c = i;
+        for _ in 0..8 {
+            c = if c & 1 != 0 { 0xEDB88320 ^ (c >> 1) } else { c >> 1 };
+        }
+        table[i as usize] = c;
+    }
+    let mut crc = 0xFFFFFFFFu32;
+    for b in data {
+        crc = table[((crc ^ *b as u32) & 0xFF) as usize] ^ (crc >> 8);
+    }
+    crc ^ 0xFFFFFFFF
+}
+
+impl Shape {
+    fn parse(a: &mut Args) -> Shape {
+        match a.next() {
+            "ay" => Shape::Ay(a.num() as usize),
+            "at" => Shape::At(a.num() as usize),
+            "as" => {
+                let c = a.num() as usize;
+                let l = a.num() as usize;
+                let ll = a.num() as usize;
+                Shape::As(c, l, ll)
+            }
+            x => panic!("shape {}", x),
+        }
+    }
+    fn sig(&self) -> &'static str {
+        match self {
+            Shape::Ay(_) => "ay",
+            Shape::At(_) => "at",
+            Shape::As(..) => "as",
+        }
+    }
+    fn bytes_val(&self) -> Vec<u8> {
+        match self {
+            Shape::Ay(n) => (0..*n).map(|i| (i % 251) as u8).collect(),
+            _ => Vec::new(),
+        }
+    }
+    fn u64_val(&self) -> Vec<u64> {
+        match self {
+            Shape::At(n) => (0..*n as u64).collect(),
+            _ => Vec::new(),
+        }
+    }
+    fn str_val(&self) -> Vec<String> {
+        match self {
+            Shape::As(c, l, ll) => (0..*c).map(|j| {
+                let ch = (b'a' + (j % 26) as u8) as char;
+                std::iter::repeat(ch).take(if j + 1 == *c { *ll } else { *l }).collect()
+            }).collect(),
+            _ => Vec::new(),
+        }
+    }
+    /// the encoding at offset 0, by a plain encoder written from the D-Bus specification (nothing of the crate is used)
+    fn encoding(&self, be: bool) -> Vec<u8> {
+        let u32b = |v: u32| if be { v.to_be_bytes() } else { v.to_le_bytes() };
+        let mut out = vec![0u8; 4];
+        let start;
+        match self {
+            Shape::Ay(_) => {
+                start = 4;
+                out.extend_from_slice(&self.bytes_val());
+            }
+            Shape::At(_) => {
+                out.extend_from_slice(&[0u8; 4]);
+                start = 8;
+                for v in self.u64_val() {
+                    out.extend_from_slice(&if be { v.to_be_bytes() } else { v.to_le_bytes() });
+                }
+            }
+            Shape::As(..) => {
+                start = 4;
+                for s in self.str_val() {
+                    while out.len() % 4 != 0 {
+                        out.push(0);
+                    }
+                    out.extend_from_slice(&u32b(s.len() as u32));
+                    out.extend_from_slice(s.as_bytes());
+                    out.push(0);
+                }
+            }
+        }
+        let len = (out.len() - start) as u32;
+        out[0..4].copy_from_slice(&u32b(len));
+        out
+    }
+}
+
+/// XM <typed|param> <bo> <shape>   push_param(&[u8] / &[u64] / &[&str]) or push_old_param(Param array of strings) into an empty body
+///                                 -> ok|err sig=<hex> buflen=<n> lenfield=<first u32 of the buffer> crc=<crc32 of the buffer>
+/// XR <typed|param> <bo> <shape>   the same, then a trailer byte, validate(), and the value read back through get::<&[u8] / Vec<u64> /
+///                                 Vec<&str>>() or get_param() -> the fields of RT/RP (pusherr when the push is refused)
+/// XD <vr|ut|up> <bo> <shape>      validate_marshalled / the typed decoder / unmarshal_with_sig on Shape::encoding
+///                                 -> ok <consumed> same=<value equals the described one> | err, then in=<crc32 of the input> inlen=<n>
+fn giant(op: &str, a: &mut Args) -> String {
+    use rustbus::params::{Array, Base, Container, Param};
+    use rustbus::Unmarshal;
+    let api = a.next().to_string();
+    let byteorder = rbverif::wirelib::bo(a);
+    let be = matches!(byteorder, rustbus::ByteOrder::BigEndian);
+    let shape = Shape::parse(a);
+    let (bytes_v, u64_v, str_v) = (shape.bytes_val(), shape.u64_val(), shape.str_val());
+    let strs: Vec<&str> = str_v.iter().map(|s| s.as_str()).collect();
+    let param = || {
+        Param::Container(Container::Array(Array {
+            element_sig: signature::Type::Base(signature::Base::String),
+            values: str_v.iter().map(|s| Param::Base(Base::String(s.clone()))).collect(),
+        }))
+    };
+    if op == "XD" {
+        let input = shape.encoding(be);
+        let note = format!("in={:08x} inlen={}", crc32(&input), input.len());
+        let ty = signature::Type::parse_description(shape.sig()).unwrap().remove(0);
+        let fds: Vec<UnixFd> = Vec::new();
+        let mut ctx = UnmarshalContext::new(&fds, byteorder, &input, 0);
+        let res = match (api.as_str(), &shape) {
+            ("vr", _) => rustbus::wire::validate_raw::validate_marshalled(byteorder, 0, &input, &ty).map(|n| (n, true)).map_err(|_| ()),
+            ("up", Shape::As(..)) => rustbus::wire::unmarshal::container::unmarshal_with_sig(&ty, &mut ctx).map(|p| (input.len() - ctx.remainder().len(), p == param())).map_err(|_| ()),
+            ("ut", Shape::Ay(_)) => <&[u8]>::unmarshal(&mut ctx).map(|v| (input.len() - ctx.remainder().len(), v == &bytes_v[..])).map_err(|_| ()),
+            ("ut", Shape::At(_)) => <Vec<u64>>::unmarshal(&mut ctx).map(|v| (input.len() - ctx.remainder().len(), v == u64_v)).map_err(|_| ()),
+            ("ut", Shape::As(..)) => <Vec<&str>>::unmarshal(&mut ctx).map(|v| (input.len() - ctx.remainder().len(), v == strs)).map_err(|_| ()),
+            _ => return "unsupported".to_string(),
+        };
+        return match res {
+            Ok((n, same)) => format!("ok {} same={} {}", n, same, note),
+            Err(()) => format!("err {}", note),
+        };
+    }
+    let mut msg = rustbus::message_builder::MarshalledMessage::new();
+    msg.body = MarshalledMessageBody::with_byteorder(byteorder);
+    let pushed = match (api.as_str(), &shape) {
+        ("typed", Shape::Ay(_)) => msg.body.push_param(&bytes_v[..]).is_ok(),
+        ("typed", Shape::At(_)) => msg.body.push_param(&u64_v[..]).is_ok(),
+        ("typed", Shape::As(..)) => msg.body.push_param(&strs[..]).is_ok(),
+        ("param", Shape::As(..)) => msg.body.push_old_param(&param()).is_ok(),
+        _ => return "unsupported".to_string(),
+    };
+    if op == "XM" {
+        let buf = msg.get_buf();
+        let lenfield = if buf.len() >= 4 {
+            let b = [buf[0], buf[1], buf[2], buf[3]];
+            if be { u32::from_be_bytes(b) } else { u32::from_le_bytes(b) }
+        } else {
+            0
+        };
+        return format!("{} sig={} buflen={} lenfield={} crc={:08x}", if pushed { "ok" } else { "err" }, hex(msg.get_sig().as_bytes()), buf.len(), lenfield, crc32(buf));
+    }
+    if !pushed {
+        return "pusherr".to_string();
+    }
+    msg.body.push_param(0xA5u8).unwrap();
+    let valid = msg.body.validate().is_ok();
+    let mut parser = msg.body.parser();
+    let same = match (api.as_str(), &shape) {
+        ("typed", Shape::Ay(_)) => parser.get::<&[u8]>().map(|v| v == &bytes_v[..]),
+        ("typed", Shape::At(_)) => parser.get::<Vec<u64>>().map(|v| v == u64_v),
+        ("typed", Shape::As(..)) => parser.get::<Vec<&str>>().map(|v| v == strs),
+        _ => parser.get_param().map(|p| p == param()),
+    };
+    let trailer = match parser.get::<u8>() {
+        Ok(0xA5) => "trailer=ok",
+        Ok(_) => "trailer=wrong",
+        Err(_) => "trailer=err",
+    };
+    format!("{} validate={} {} left={} same={}", if same.is_ok() { "ok" } else { "err" }, valid, trailer, parser.sigs_left(), same.unwrap_or(false))
 }
 
 /// RT of a marshal-only type (wirelib::run_m): the body written through the typed API is rebuilt from its parts and read
